@@ -46,6 +46,11 @@ HARNESSES = [
       strength="F in all scalars and tables; B(out<=16,in<=4 bytes)"),
     H("k_prologue_done_forever", "K-prologue", ["C06", "C08", "C09", "C13", "C16"], fns=["decompress_with_limit (DoneForever exit, epilogue checksum verdict)"], cost=30,
       strength="F in all scalars and tables; B(out<=16,in<=4 bytes)"),
+    # ---- K-inflate (streaming wrapper against the M-decompress contract model) ----
+    H("k_inflate_protocol", "K-inflate", ["C04", "C05", "C06", "C07", "C09", "C13"], fns=["inflate", "inflate_loop", "push_dict_out", "InflateState::new"],
+      cost=60, strength="F in wrapper state, flags, flush, engine results; B(in<=3,out<=3 bytes => loop<=8 iterations, unwinding assertion on)",
+      note="decompress replaced by contract model M-decompress (clauses: counts<=offered, starved statuses truthful, HasMoreOutput only when window full, no BadParam on valid geometry)"),
+    H("k_push_dict_out", "K-inflate", ["C05", "C07", "C08", "C13"], fns=["push_dict_out"], cost=20, strength="F in ring state; B(out<=4 bytes)"),
     # ---- K-lenDist ----
     H("k_lz_one_match_roundtrip", "K-lenDist", ["C01", "C02", "C10"], cost=40,
       fns=["record_match", "compress_lz_codes", "LZOxide::new", "LZOxide::write_code", "LZOxide::init_flag", "LZOxide::get_flag",
